@@ -6,7 +6,9 @@ use cosmwasm_std::{
 use white_whale_std::pool_network::asset::AssetInfo;
 
 use crate::helpers::{get_flow_asset_amount_at_epoch, get_flow_current_end_epoch};
-use crate::state::{EpochId, ADDRESS_WEIGHT_HISTORY, GLOBAL_WEIGHT_SNAPSHOT, LAST_CLAIMED_EPOCH};
+use crate::state::{
+    EpochId, ADDRESS_WEIGHT, ADDRESS_WEIGHT_HISTORY, GLOBAL_WEIGHT_SNAPSHOT, LAST_CLAIMED_EPOCH,
+};
 use crate::{error::ContractError, helpers, state::FLOWS};
 
 //todo abstract code in this function as most of it is also used in get_rewards.rs
@@ -222,12 +224,18 @@ pub fn claim(deps: &mut DepsMut, info: &MessageInfo) -> Result<Vec<CosmosMsg>, C
     // they are useless now since the user already claimed those epochs
     helpers::delete_weight_history_for_user(deps, &&address)?;
 
-    // update the last seen weight for the user, storing what the weight is gonna be from the next
-    // epoch (since current epoch was just claimed)
+    // update the weight history for the user, storing what the weight is gonna be from the next
+    // epoch (since current epoch was just claimed). That is the current weight of the address: the
+    // last weight seen while claiming does not include the position changes made during the current
+    // epoch (nor any weight at all when there were no flows to go through), which take effect on the
+    // next epoch and whose history entry was just deleted.
+    let current_user_weight = ADDRESS_WEIGHT
+        .may_load(deps.storage, address.clone())?
+        .unwrap_or_default();
     ADDRESS_WEIGHT_HISTORY.update::<_, StdError>(
         deps.storage,
         (&address, current_epoch + 1u64),
-        |_| Ok(last_user_weight_seen),
+        |_| Ok(current_user_weight),
     )?;
 
     // store last claimed epoch for the user
